@@ -147,7 +147,8 @@ impl PendingOutboundPayment {
         && final(self).privs() == old(self).privs()
         && final(self).spec_hash() == old(self).spec_hash()
         && final(self).spec_total() == old(self).spec_total()
-        && final(self).spec_fee() == old(self).spec_fee(),
+        && final(self).spec_fee() == old(self).spec_fee()
+        && final(self)->Abandoned_reason == Some(reason),
     (*final(self)) is Fulfilled <==> (*old(self)) is Fulfilled,
     (*old(self)) is AwaitingInvoice || (*old(self)) is AwaitingOffer || (*old(self)) is Legacy ==> *final(self) == *old(self),
     (*old(self)) is InvoiceReceived || (*old(self)) is StaticInvoiceReceived ==> (*final(self)) is Abandoned && final(self).privs() =~= Set::<[u8; 32]>::empty(),
@@ -520,6 +521,48 @@ impl EventQueue { #[verifier::external_body] pub fn push_back(&mut self, e: (Eve
     (*old(payment)) is Retryable && !(old(payment).privs() =~= Set::<[u8; 32]>::empty()) ==> !*final(removed) && (*final(payment)) is Abandoned && final(payment).privs() == old(payment).privs(),
 //@mutant failure_reported_while_parts_are_in_flight
     if payment.get().remaining_parts() == 0 {
+//@with
+    if true {
+//@end
+
+// ---- the send path gives up on a payment (retries exhausted, or a retry would overshoot the total): the function-local macro abandon_with_entry! of find_route_and_send_payment, same rule as abandon_payment ----
+//@extract lightning/src/ln/outbound_payment.rs :: impl OutboundPayments :: fn find_route_and_send_payment
+//@strip events
+//@metavars
+//@slice R15
+    macro_rules! abandon_with_entry { (m_payment: expr, m_reason: expr) => { $body:any } }
+//@with
+    fn abandon_from_the_send_path(m_payment: &mut PendingOutboundPayment, m_reason: PaymentFailureReason, payment_id: PaymentId, payment_hash: PaymentHash,
+        pending_events: &mut Vec<(Event, Option<EventCompletionAction>)>, removed: &mut bool) {
+        $body
+    }
+//@rw R5 *
+    m_payment.get_mut()
+//@with
+    m_payment
+//@rw R5 *
+    m_payment.get()
+//@with
+    (&*m_payment)
+//@rw R5 ?
+    pending_events.lock().unwrap().push_back(
+//@with
+    pending_events.push(
+//@rw R5 ?
+    m_payment.remove();
+//@with
+    *removed = true;
+//@r7
+//@requires
+    !*old(removed), (*old(m_payment)) is Retryable,
+//@ensures P C03 the-send-path-reports-PaymentFailed-and-forgets-a-payment-it-gives-up-on-only-when-no-part-is-in-flight-otherwise-the-payment-stays-abandoned-with-its-parts
+    (*final(m_payment)) is Abandoned && final(m_payment).privs() == old(m_payment).privs(),
+    *final(removed) <==> old(m_payment).privs() =~= Set::<[u8; 32]>::empty(),
+    !*final(removed) ==> final(pending_events)@ == old(pending_events)@,
+    *final(removed) ==> final(pending_events)@.len() == old(pending_events)@.len() + 1 && final(pending_events)@.drop_last() == old(pending_events)@
+        && (final(pending_events)@.last().0 matches Event::PaymentFailed { payment_id: id, payment_hash: h, reason } && id == payment_id && h == Some(payment_hash) && reason == Some(m_reason)),
+//@mutant send_path_forgets_a_payment_with_parts_in_flight
+    if m_payment.get().remaining_parts() == 0 {
 //@with
     if true {
 //@end
